@@ -20,7 +20,7 @@ SOUND_COLS = ["hitsound_set", "hitsound_file", "sample_set", "addition_set", "cu
 
 
 def _fn(ctx):
-    return ctx.M.fn(HSC)
+    return ctx.M.nfn(HSC, subst=True)
 
 
 def _frames(fn) -> Dict[str, ast.Assign]:
@@ -283,8 +283,26 @@ def rule_r4(ctx) -> List[R.Inst]:
     # which columns of which note lists the reset really writes: stores through the generated list setters
     # (confirmed as frame writes by the effect summary) on receivers that denote self.hits / self.holds
     reset_cols: Dict[str, set] = {}
-    rfn = M.fn(OSUMAP + ".reset_samples")
+    rfn = M.nfn(OSUMAP + ".reset_samples")
     real_sites = {st.text for sites in rs.mut.values() for st in sites if "setter" in (st.via or "")}
+    real_attrs = set()
+    for t in real_sites:
+        try:
+            a = ast.parse(t).body[0]
+            if isinstance(a, ast.Assign) and isinstance(a.targets[0], ast.Attribute):
+                real_attrs.add(a.targets[0].attr)
+        except SyntaxError:
+            pass
+    last_bound = {}
+    slots = M.map_slots(OSUMAP)
+
+    def generated_store(t: ast.Attribute) -> bool:
+        """`self.<slot>.<col> = ..` on the normal form: a store through the generated column setter of the slot's list class"""
+        r = t.value
+        if isinstance(r, ast.Attribute) and unparse(r.value) == "self" and r.attr in slots and resets_notes:
+            lc = slots[r.attr]
+            return t.attr in M.list_columns(lc) and M.method(lc, t.attr) is None
+        return False
     loopvars: Dict[str, set] = {}
     for n in walk_no_nested(rfn.node):
         if isinstance(n, ast.For) and isinstance(n.target, ast.Name) and isinstance(n.iter, (ast.Tuple, ast.List)):
@@ -293,10 +311,16 @@ def rule_r4(ctx) -> List[R.Inst]:
     last_of = {n.target.id: {n.iter.elts[-1].attr} for n in loops_of.values() if isinstance(n.iter, (ast.Tuple, ast.List)) and n.iter.elts
                and isinstance(n.iter.elts[-1], ast.Attribute)}
     for n in walk_no_nested(rfn.node):
-        if isinstance(n, ast.Assign) and isinstance(n.targets[0], ast.Attribute) and unparse(n) in real_sites:
+        if isinstance(n, ast.Assign) and isinstance(n.targets[0], ast.Name) and isinstance(n.value, ast.Attribute) and \
+                unparse(n.value.value) == "self":
+            last_bound[n.targets[0].id] = {n.value.attr}      # `notes = self.holds` (also: the value an unrolled loop leaves)
+        if isinstance(n, ast.Assign) and isinstance(n.targets[0], ast.Attribute) and \
+                (unparse(n) in real_sites or n.targets[0].attr in real_attrs or generated_store(n.targets[0])):
             recv = n.targets[0].value
             lists = set()
-            if isinstance(recv, ast.Name) and recv.id in loopvars:
+            if isinstance(recv, ast.Name) and recv.id in last_bound and recv.id not in loopvars:
+                lists = last_bound[recv.id]
+            elif isinstance(recv, ast.Name) and recv.id in loopvars:
                 inside = any(x is n for x in ast.walk(loops_of[recv.id])) if recv.id in loops_of else False
                 # after the loop the variable still names the LAST list only
                 lists = loopvars[recv.id] if inside else last_of.get(recv.id, set())
